@@ -198,6 +198,13 @@ def rule_d(ctx):
         if reached == 0:
             raise AnalysisError('C08.d: store at %s:%s not reached' % (f.file, stmt.lineno))
         rep.add('C08.d', c, (f.file, stmt.lineno), ok, detail or 'stored value is > 0 on all %d paths' % reached)
+    # ... and <= 2^31 - 1: constants stored are within range, the "unbounded" default is exactly the largest legal value
+    fm = ctx.repo.module('rsocket.frame')
+    mx = ctx.repo.try_const(fm, fm.assigns['MAX_REQUEST_N'][-1]) if fm.assigns.get('MAX_REQUEST_N') else None
+    rep.add('C08.d', 'MAX_REQUEST_N / largest legal request-n', (fm.relpath, getattr(
+        (fm.assigns.get('MAX_REQUEST_N') or [None])[-1], 'lineno', 1)), mx == 2 ** 31 - 1,
+            'MAX_REQUEST_N = 2^31 - 1' if mx == 2 ** 31 - 1 else
+            'MAX_REQUEST_N is %r: the default request-n does not fit the 31-bit field (or is not the maximum)' % (mx,))
 
 
 def rule_e(ctx):
